@@ -294,14 +294,18 @@ static void run_scenario (void) {
 /* ------------------------------------------------------------------ scenario alphabets */
 static wr_t V[400]; static int nV;
 static int PRE[16], nPRE;
-static int nw_opt = 2, lfeach = 6, kinds = 2;
+static int nw_opt = 2, lfeach = 6, kinds = 2, longlf = 4;   /* longlf: LF variants for lengths > lfeach: 2 = none/last, 3 = +first, 4 = +at size-1 */
 static void build_alphabet (void) {
   int maxlen = (int) vx_opt_long ("maxlen", 2 * SZ + 1);
   if (SZ <= 64) {
     for (int len = 0; len <= maxlen; len++) {
       V[nV++] = (wr_t) { len, -1 };
       if (len <= lfeach) for (int p = 0; p < len; p++) V[nV++] = (wr_t) { len, p };
-      else { V[nV++] = (wr_t) { len, len - 1 }; V[nV++] = (wr_t) { len, 0 }; V[nV++] = (wr_t) { len, SZ - 1 < len ? SZ - 1 : len / 2 }; }
+      else {
+        V[nV++] = (wr_t) { len, len - 1 };
+        if (longlf >= 3) V[nV++] = (wr_t) { len, 0 };
+        if (longlf >= 4) V[nV++] = (wr_t) { len, SZ - 1 < len ? SZ - 1 : len / 2 };
+      }
     }
     const char *pm = vx_opt ("pre", "two");
     if (!strcmp (pm, "all")) for (int p = 0; p < SZ; p++) PRE[nPRE++] = p;
@@ -397,6 +401,7 @@ int main (int argc, char **argv) {
   if (nw_opt < 1) nw_opt = 1; if (nw_opt > MAXW) nw_opt = MAXW;
   lfeach = (int) vx_opt_long ("lfeach", 6);
   kinds = (int) vx_opt_long ("kinds", 2);
+  longlf = (int) vx_opt_long ("longlf", 4);
   explore_mode = 1;
   for (int i = 1; i < argc; i++) if (!strcmp (argv[i], "--enum") || !strncmp (argv[i], "--replay-index", 14)) explore_mode = 0;
   build_alphabet ();
